@@ -54,6 +54,9 @@ def _collect_functions(store):
 
 def _proc_main(job, conn, scratch):
     try:
+        if os.environ.get('VERIF_DUMP_AFTER_S'):
+            import faulthandler
+            faulthandler.dump_traceback_later(float(os.environ['VERIF_DUMP_AFTER_S']), file=open('/tmp/verif_dump_%d.txt' % os.getpid(), 'w'))
         _worker_init(scratch)
         r = _worker(job)
     except BaseException as e:      # never leave the parent without an answer
